@@ -340,6 +340,12 @@ class Tr:
             f, vty = keys[s.value]
             v = self.fresh()
             return b + [(v, "py_dict_get (%s %s)" % (f, t))], v, vty
+        if ty == "coq:para":
+            b2, t2, ty2 = self.expr(s, env)
+            if ty2 != "Z":
+                raise Abort("parameter dictionary key of type %s" % ty2)
+            v = self.fresh()
+            return b + b2 + [(v, "py_dict_get (dict_get Z.eqb %s %s)" % (t2, t))], v, "Z"
         if ty.startswith("pdict:"):
             b2, t2, ty2 = self.expr(s, env)
             if ty2 not in ("pos", "list:Z"):
@@ -631,6 +637,17 @@ class Tr:
             if tyk not in ("pos", "list:Z"):
                 raise Abort("dictionary key of type %s" % tyk)
             return "%slet self := self <| %s := dict_set pos_eqb %s %s (%s self) |> in %s" % (self.binds(bk + bv), fld, tk, tv, fld, nxt(env))
+        # local name-keyed dictionary: x[k] = v
+        if isinstance(s, ast.Assign) and len(s.targets) == 1 and isinstance(s.targets[0], ast.Subscript) and isinstance(s.targets[0].value, ast.Name) \
+                and s.targets[0].value.id in env and env[s.targets[0].value.id][1] == "coq:para":
+            name = s.targets[0].value.id
+            bk, tk, tyk = self.expr(s.targets[0].slice, env)
+            bv, tv, tyv = self.expr(s.value, env)
+            if tyk != "Z" or tyv != "Z":
+                raise Abort("%s: key %s, value %s" % (ast.unparse(s), tyk, tyv))
+            cur = env[name][0]
+            env[name] = (name + "_v", "coq:para")
+            return "%slet %s_v := dict_set Z.eqb %s %s %s in %s" % (self.binds(bk + bv), name, tk, tv, cur, nxt(env))
         # a, b = (x, y)
         if isinstance(s, ast.Assign) and len(s.targets) == 1 and isinstance(s.targets[0], ast.Tuple) and isinstance(s.value, ast.Tuple) \
                 and len(s.targets[0].elts) == len(s.value.elts) and all(isinstance(x, ast.Name) for x in s.targets[0].elts):
@@ -710,6 +727,8 @@ def assigned_names(stmts):
                     for x in ([t] if not isinstance(t, ast.Tuple) else t.elts):
                         if isinstance(x, ast.Name):
                             out.add(x.id)
+                        elif isinstance(x, ast.Subscript) and isinstance(x.value, ast.Name):
+                            out.add(x.value.id)
             elif isinstance(n, ast.AugAssign) and isinstance(n.target, ast.Name):
                 out.add(n.target.id)
             elif isinstance(n, ast.Call) and isinstance(n.func, ast.Attribute) and n.func.attr == "append" and isinstance(n.func.value, ast.Name):
@@ -747,10 +766,32 @@ def _contains_own(stmts, kinds):
 
 
 def for_loop(self, s, env, rest, rest_k):
-    if s.orelse or not isinstance(s.target, ast.Name):
+    pair = None
+    if not s.orelse and isinstance(s.target, ast.Tuple) and len(s.target.elts) == 2 and all(isinstance(x, ast.Name) for x in s.target.elts) \
+            and isinstance(s.iter, ast.Call) and not s.iter.keywords and ast.unparse(s.iter.func) in ("enumerate", "zip"):
+        pair = [x.id for x in s.target.elts]
+    elif s.orelse or not isinstance(s.target, ast.Name):
         raise Abort("for loop shape: %s" % ast.unparse(s).split("\n")[0])
     it = s.iter
-    if isinstance(it, ast.Call) and ast.unparse(it.func) == "range" and len(it.args) == 1 and not it.keywords:
+    if pair:
+        def lty(e):
+            b_, t_, ty_ = self.expr(e, env)
+            if ty_ == "pos":
+                ty_ = "list:Z"
+            if b_ or not ty_.startswith("list:"):
+                raise Abort("for over %s of a %s" % (ast.unparse(it.func), ty_))
+            return t_, ty_[5:]
+        if ast.unparse(it.func) == "enumerate":
+            if len(it.args) != 1:
+                raise Abort("enumerate with a start")
+            t_, e_ = lty(it.args[0])
+            b, lst, ety = [], "(py_enumerate %s)" % t_, ("Z", e_)
+        else:
+            if len(it.args) != 2:
+                raise Abort("zip of %d sequences" % len(it.args))
+            (t1_, e1_), (t2_, e2_) = lty(it.args[0]), lty(it.args[1])
+            b, lst, ety = [], "(py_zip %s %s)" % (t1_, t2_), (e1_, e2_)
+    elif isinstance(it, ast.Call) and ast.unparse(it.func) == "range" and len(it.args) == 1 and not it.keywords:
         b, t, ty = self.expr(it.args[0], env)
         if ty != "Z":
             raise Abort("range of a %s" % ty)
@@ -777,7 +818,13 @@ def for_loop(self, s, env, rest, rest_k):
             env[n] = (env[n][0], self.u.hints[n])
     pat = _state_tuple(self, carried, env)
     benv = dict(env)
-    benv[s.target.id] = (s.target.id + "_v", ety)
+    if pair:
+        benv[pair[0]] = (pair[0] + "_v", ety[0])
+        benv[pair[1]] = (pair[1] + "_v", ety[1])
+        elname, elpat = "el", "let '(%s_v, %s_v) := el in " % (pair[0], pair[1])
+    else:
+        benv[s.target.id] = (s.target.id + "_v", ety)
+        elname, elpat = s.target.id + "_v", ""
 
     def body_end(e2):
         st = _state_tuple(self, carried, e2)
@@ -788,8 +835,8 @@ def for_loop(self, s, env, rest, rest_k):
 
     btxt = self.block(body, benv, body_end)
     comb = "py_for" if brk is None else "py_for_break"
-    loop = "%s (fun st %s_v => let '%s := st in %s) %s %s" % (comb, s.target.id, pat, btxt, lst, pat) if pat != "tt" else \
-           "%s (fun st %s_v => %s) %s tt" % (comb, s.target.id, btxt, lst)
+    loop = "%s (fun st %s => %slet '%s := st in %s) %s %s" % (comb, elname, elpat, pat, btxt, lst, pat) if pat != "tt" else \
+           "%s (fun st %s => %s%s) %s tt" % (comb, elname, elpat, btxt, lst)
     after = self.block(rest, env, rest_k)
     return "%sdo %s <- %s; %s" % (self.binds(b), "_" if pat == "tt" else pat, loop, after)
 
